@@ -278,5 +278,13 @@ def main(ctx):
                       'try_undo_key_generation for CoreDocument and IotaDocument; every await completes immediately')
     ctx.assumptions.append('awaited futures are Ready on first poll (no interleaving inside join!); storage results are unconstrained values')
     ctx.outside += ['real stores (C15)', 'interleavings inside futures::join!', 'error paths of generate_method whose failing step is not a storage call (new_from_jwk, MethodDigest::new, fragment(), insert_method): the property quantifies over storage faults',
-                    'that insert_method / remove_method themselves restore the document exactly (C04)']
+                    'that remove_method restores the document exactly (C04; insert_method\'s guard is re-used here)']
     guarded(ctx, 'fault schedule audit', 'M', lambda: run(ctx, prog))
+    # generate_method's success means "the method is in the document and resolves": that rests on insert_method refusing an id the
+    # document already answers queries for (C04's obligation, re-used: every relationship set is asked by query, not by equality)
+    import c04
+
+    def insertion_guard():
+        prog2, info2 = load(c04.CRATES, src_only=c04.SRC)
+        c04.run(ctx, prog2, only=r'^insert_method/')
+    guarded(ctx, 'insert_method guard (shared with C04)', 'M', insertion_guard)
